@@ -188,6 +188,85 @@ pub fn run(args: &Args) {
             });
         }
     }
+    // Local creation: a graph created by an action that publishes k commands (the first is the
+    // init command). Its id must be the init command's id, the provider must file it under that
+    // id, and a fresh peer receiving the graph's commands under that id must accept them.
+    for k in 1..=args.tier.pick(3usize, 4) {
+        for ranks_desc in [false, true] {
+            rep.count("evaluations", 1);
+            let publish: Vec<rtlib::policy::Publish> = (0..k)
+                .map(|j| rtlib::policy::Publish {
+                    rank: if ranks_desc { 0x90 - 0x10 * j as u8 } else { 0x20 + 0x10 * j as u8 },
+                    idx: 500 + j,
+                    name: format!("g{j}"),
+                    finalize: false,
+                    prio: 0,
+                    prog: vec![Op::Append],
+                })
+                .collect();
+            let script = rtlib::policy::ActionScript { publish, fail_after: None, direct: vec![], probe: false };
+            let key = format!("new_graph publishing {k} commands ranks_desc={ranks_desc}");
+            let replay = json!({"new_graph_publishes": k, "ranks_desc": ranks_desc});
+            let want_id = basic_id(script.publish[0].rank, script.publish[0].idx);
+            let mut creator = MemReplica::new_mem(graph_id_of(want_id));
+            let got = match mcx::catch(|| creator.client.new_graph(&[2], &script, &mut creator.sink)) {
+                Ok(Ok(g)) => g,
+                Ok(Err(e)) => {
+                    rep.violation(key, format!("new_graph failed: {e}"), replay);
+                    continue;
+                }
+                Err(p) => {
+                    rep.violation(key, format!("panic: {p}"), replay);
+                    continue;
+                }
+            };
+            rep.outcome("new_graph:ok", 1);
+            if got != graph_id_of(want_id) {
+                rep.violation(key.clone(), format!("new_graph returned an id that is not the init command's id (the id of published command #{})", (0..k).find(|&j| graph_id_of(basic_id(script.publish[j].rank, script.publish[j].idx)) == got).map(|j| j.to_string()).unwrap_or("?".into())), replay.clone());
+                continue;
+            }
+            let listed: Vec<GraphId> = creator.client.provider().list_graph_ids().map(|it| it.filter_map(|x| x.ok()).collect()).unwrap_or_default();
+            if listed != vec![got] {
+                rep.violation(key.clone(), format!("provider lists {} graphs, expected exactly the init id", listed.len()), replay.clone());
+                continue;
+            }
+            // replicate to a fresh peer
+            match creator.observe() {
+                Ok(o) => {
+                    let mut cmds: Vec<Cmd> = Vec::new();
+                    let mut parent: Option<(rtlib::rt::CmdId, u64)> = None;
+                    for (j, p) in script.publish.iter().enumerate() {
+                        let id = basic_id(p.rank, p.idx);
+                        cmds.push(Cmd {
+                            id,
+                            prior: match parent { None => Prior::None, Some((pid, mc)) => Prior::Single(addr(pid, mc)) },
+                            priority: if j == 0 { Priority::Init } else { Priority::Basic(0) },
+                            policy: if j == 0 { Some(vec![2]) } else { None },
+                            data: encode_payload(&p.name, &p.prog),
+                        });
+                        parent = Some((id, j as u64));
+                    }
+                    if o.cmds.len() != k {
+                        rep.violation(key.clone(), format!("creator stores {} commands, published {k}", o.cmds.len()), replay.clone());
+                        continue;
+                    }
+                    let mut peer = MemReplica::new_mem(got);
+                    let mut t = peer.trx();
+                    match mcx::catch(|| peer.add(&mut t, &cmds).and_then(|_| peer.commit(t))) {
+                        Ok(Ok(_)) => match peer.observe() {
+                            Ok(po) if po == o => rep.count("graphs_replicated", 1),
+                            Ok(po) => rep.violation(key.clone(), format!("fresh peer observes {} but creator {}", po.short(), o.short()), replay.clone()),
+                            Err(e) => rep.violation(key.clone(), format!("peer observe: {e}"), replay.clone()),
+                        },
+                        Ok(Err(e)) => rep.violation(key.clone(), format!("a fresh peer cannot receive the graph under its id: {e}"), replay.clone()),
+                        Err(p) => rep.violation(key.clone(), format!("panic: {p}"), replay.clone()),
+                    }
+                }
+                Err(e) => rep.violation(key.clone(), format!("creator observe: {e}"), replay.clone()),
+            }
+        }
+    }
+    rep.require_nonzero("graphs_replicated");
     let _: Address = addr(init_id, 0);
     rep.set("distinct_nontrivial", distinct.len() as u64);
     rep.set("rule", format!("all batches of length 0..={maxlen} over 7 first-command shapes x graph absent/present; non-trivial = distinct cases refused by the runtime"));
